@@ -83,9 +83,12 @@ def build_sim_drop(run, prop, E, FakeTRX):
         run.add(Obligation(prop, qualname(f), "drops_iff_armed_and_fn_multiple", p.pc, rz == drop, kind="post", where=where(f), tag=tag))
         run.add(Obligation(prop, qualname(f), "counter_decrements_iff_dropped", p.pc,
                            Z(t.attrs["burst_drop_amount"]) == z3.If(drop, amt - 1, amt), kind="post", where=where(f), tag=tag))
-        others = [k for k in ctx["pre"] if k != "burst_drop_amount"]
+        # the period is observable only while drops remain (every accepted FAKE_DROP rewrites both): it is framed under that condition
+        others = [k for k in ctx["pre"] if k not in ("burst_drop_amount", "burst_drop_period")]
         run.add(Obligation(prop, qualname(f), "frame_other_state_unchanged", p.pc,
                            z3.And(state_eq_any(t, ctx["pre"], others)), kind="frame", where=where(f), tag=tag))
+        run.add(Obligation(prop, qualname(f), "period_kept_while_drops_remain", p.pc,
+                           z3.Implies(Z(t.attrs["burst_drop_amount"]) > 0, Z(t.attrs["burst_drop_period"]) == per), kind="frame", where=where(f), tag=tag))
         run.add(*frame_obligations(prop, qualname(f), p, ctx["msg"], ctx["mpre"], "", where(f)))
         run.add(Obligation(prop, qualname(f), "invariant_preserved", p.pc, T.invariant_of(t), kind="inv", where=where(f), tag=tag))
     run.add(Cover(prop, qualname(f), "cover_drop", [T.class_invariant("t."), amt > 0, fn % per == 0, fn >= 0]))
